@@ -23,8 +23,10 @@ pub enum ROperand {
     Built,
     /// Relation::from(lossy relation g (>= 1) [i386] <x> <!y z>)
     FromLossy,
+    /// "h ".parse(): a parsed relation that carries trailing whitespace inside its node
+    ParsedTrailingWs,
 }
-pub const ROPERANDS: [ROperand; 5] = [ROperand::Parsed, ROperand::Simple, ROperand::New, ROperand::Built, ROperand::FromLossy];
+pub const ROPERANDS: [ROperand; 6] = [ROperand::Parsed, ROperand::Simple, ROperand::New, ROperand::Built, ROperand::FromLossy, ROperand::ParsedTrailingWs];
 
 #[derive(Clone, Copy, Serialize, Deserialize, PartialEq, Debug)]
 pub enum EOperand {
@@ -161,6 +163,7 @@ fn mk_rel(o: ROperand) -> (ll::Relation, MRel) {
     match o {
         ROperand::Parsed => (ll::Relation::from_str("c (>= 1)").unwrap(), MRel { version: Some((">=".into(), "1".into())), ..mrel("c") }),
         ROperand::Simple => (ll::Relation::simple("d"), mrel("d")),
+        ROperand::ParsedTrailingWs => (ll::Relation::from_str("h ").unwrap(), mrel("h")),
         ROperand::New => (
             ll::Relation::new("e", Some((VersionConstraint::LessThan, "2:1.0".parse().unwrap()))),
             MRel { version: Some(("<<".into(), "2:1.0".into())), ..mrel("e") },
